@@ -1021,6 +1021,7 @@ Verdict runCase(Choices &c, Ctx &ctx, Which which) {
     ctx.label("earlier-utterance-with-the-same-frame-count");
   }
   ctx.label(k.gram.kind == Gram::JSGF ? "door:jsgf" : k.gram.kind == Gram::FSG ? "door:fsg" : "door:align");
+  ctx.labelIf(k.gram.namesVariant, "grammar:names-a-pronunciation-variant");
   ctx.label("audio:" + k.audioDesc.substr(0, k.audioDesc.find('(')));
   ctx.labelIf(fsa::accepts(k.gram.own, {}, false), "grammar:accepts-empty-sentence");
 
